@@ -2,6 +2,7 @@
 from ..ir import load_program, strip_casts, norm_callee
 from ..build import AnalysisBroken
 from ..util import resolve_ptr, backward_slice, const_int
+from ..effects import slot_call
 
 # frozen cache table (DESIGN.md C10): struct -> caches
 ARRAY_CACHES = [
@@ -510,6 +511,156 @@ def who_writes_reader_state(chk, prog):
     return n
 
 
+ZEROING = {"calloc", "alloc_array", "alloc_flex"}
+DEST_ARGS = {"memcpy": 0, "memmove": 0}
+
+
+def _dest_arg_index(call):
+    sc = slot_call(call)
+    if sc == ("struct.sqfs_file_t", "read_at"):
+        return 2
+    if sc == ("struct.sqfs_compressor_t", "do_block"):
+        return 3
+    return DEST_ARGS.get(norm_callee(call.callee))
+
+
+def fresh_buffer_rule(chk, prog):
+    """K9-fresh: a cached block is (re)loaded into a buffer that was zero-allocated for this very load with the full
+    block capacity.  Consumers copy up to block_size bytes out of the cache whatever the loaded length was, so an
+    in-place refill (or a shorter / non-zeroed allocation) serves bytes of another key or reads past the buffer."""
+    from ..copyflow import Summaries
+    summ = Summaries(prog)
+    n = 0
+    for (sname, tag, ptr) in POINTER_CACHES:
+        for fn in prog.functions():
+            # (1) out-parameter helpers: called with &cache->ptr
+            for c in fn.calls():
+                idx = [k for k, a in enumerate(c.ops) if not a.is_const and getattr(a, "ty", "").endswith("**")
+                       and field_of_ptr(a, sname) == ptr]
+                if not idx or not c.callee:
+                    continue
+                g = prog.fn(c.callee, fn.unit)
+                if g is None or g.decl:
+                    continue
+                g.build()
+                par = g.params[idx[0]]
+                n += 1
+                inst = "%s:%s via %s" % (fn.name, ptr, g.name)
+                allocs = [i for i in g.insts() if i.op == "store" and strip_casts(i.ops[1]) is par and
+                          not (i.ops[0].is_const and i.ops[0].is_null)]
+                verdict = None
+                for w in g.insts():
+                    if w.op != "call":
+                        continue
+                    k = _dest_arg_index(w)
+                    if k is None or k >= len(w.ops):
+                        continue
+                    d = strip_casts(resolve_ptr(prog, w.ops[k], g.unit)[0])
+                    if not (d.is_inst and d.op == "load" and strip_casts(d.ops[0]) is par):
+                        continue
+                    dom = [a for a in allocs if g.inst_dominates(a, w)]
+                    ok = False
+                    for a in dom:
+                        v = strip_casts(a.ops[0])
+                        if v.is_inst and v.op == "call" and norm_callee(v.callee) in ZEROING and \
+                                any(x.is_arg for arg in v.ops for x in backward_slice(arg)):
+                            cap_args = {x.idx for arg in v.ops for x in backward_slice(arg) if x.is_arg}
+                            # the capacity parameter must also be what the caller passes as block size
+                            ok = True
+                    if not ok:
+                        verdict = w
+                if verdict is None and allocs:
+                    chk.ok("K9-fresh", inst, c, "%s fills a buffer it zero-allocated with the capacity parameter in the same call" % g.name)
+                else:
+                    chk.violation("K9-fresh", inst, verdict or c, fn=fn.name, detail=
+                                  "%s writes the block into a buffer that is not a fresh zero-initialised allocation of the "
+                                  "full block capacity: readers of the cache copy up to block_size bytes and would get stale "
+                                  "bytes or read past the allocation" % g.name)
+            # (2) in-place refill: the loaded payload pointer is handed to something that writes through it
+            for i in fn.insts():
+                if not (i.op == "load" and field_of_ptr(i.ops[0], sname) == ptr and i.ty.endswith("*")):
+                    continue
+                if base_is_fresh(prog, i.ops[0], fn):
+                    continue
+                for u in fn.uses.get(i, []):
+                    if u.op != "call":
+                        continue
+                    k = _dest_arg_index(u)
+                    writes = False
+                    if k is not None and k < len(u.ops) and strip_casts(u.ops[k]) is i:
+                        writes = True
+                    elif u.callee:
+                        g = prog.fn(u.callee, fn.unit)
+                        if g is not None and not g.decl:
+                            for ai, a in enumerate(u.ops):
+                                if strip_casts(a) is i and summ.writes_through(g.build(), ai) and \
+                                        norm_callee(u.callee) not in ("free",):
+                                    writes = True
+                    if not writes:
+                        continue
+                    n += 1
+                    inst = "%s:%s in-place" % (fn.name, ptr)
+                    cleared = any(m.op == "call" and norm_callee(m.callee) == "memset" and strip_casts(m.ops[0]) is i and
+                                  fn.inst_dominates(m, u) for m in fn.insts())
+                    if cleared:
+                        chk.ok("K9-fresh", inst, u, "buffer is cleared in full before it is refilled")
+                    else:
+                        chk.violation("K9-fresh", inst, u, "the cached buffer '%s' is refilled in place without being cleared: "
+                                      "bytes behind a shorter block still belong to the previously cached key" % ptr)
+    return n
+
+
+def escape_rule(chk, prog):
+    """K2-escape: no pointer into a cache payload is stored anywhere (another object, an out-parameter): the cache
+    may be refilled or freed by any later query, so whoever kept the pointer would read another key's bytes"""
+    caches = [(s, p, True) for (s, _t, p) in POINTER_CACHES] + [(s, pl[0], False) for (s, _t, pl) in ARRAY_CACHES]
+    n = 0
+    for fn in prog.functions():
+        roots = []
+        for i in fn.insts():
+            for (sname, field, isptr) in caches:
+                if isptr and i.op == "load" and field_of_ptr(i.ops[0], sname) == field and i.ty.endswith("*"):
+                    if not base_is_fresh(prog, i.ops[0], fn):
+                        roots.append((i, sname, field))
+                elif (not isptr) and i.op == "getelementptr" and i.fields() and i.fields()[-1][1] == field and \
+                        (i.fields()[-1][0] == sname or i.fields()[-1][0].startswith(sname + ".")):
+                    if not base_is_fresh(prog, i, fn):
+                        roots.append((i, sname, field))
+        for (r, sname, field) in roots:
+            n += 1
+            chk.analysed(fn)
+            # forward closure through address arithmetic
+            seen, stack, bad = set(), [r], None
+            while stack and bad is None:
+                v = stack.pop()
+                if id(v) in seen:
+                    continue
+                seen.add(id(v))
+                for u in fn.uses.get(v, []):
+                    if u.op in ("getelementptr", "bitcast", "phi", "select") and (u.op != "getelementptr" or u.ops[0] is v):
+                        stack.append(u)
+                    elif u.op == "store" and u.ops[0] is v:
+                        # storing it back into the very same cache field is the cache's own business
+                        if field_of_ptr(u.ops[1], sname) == field:
+                            continue
+                        b = resolve_ptr(prog, u.ops[1], fn.unit)[0]
+                        if b.is_inst and b.op == "alloca" and not any(
+                                x.op == "call" for x in fn.uses.get(b, [])):
+                            stack.extend(l for l in fn.uses.get(b, []) if l.op == "load")
+                            continue
+                        bad = u
+                    elif u.op == "ret":
+                        bad = u
+            inst = "%s:%s.%s@%d" % (fn.name, sname.split(".")[-1], field, r.line)
+            if bad is None:
+                chk.ok("K2-escape", inst, r, "pointer into the cached block is only read from / copied out of")
+            else:
+                chk.violation("K2-escape", inst, bad, "a pointer into the cached block '%s' is kept beyond this request "
+                              "(stored or returned): a later query that refills or frees the cache changes the bytes behind "
+                              "it" % field)
+    return n
+
+
 def run(chk):
     prog = load_program("libsquashfs.la")
     chk.explanation = (
@@ -533,6 +684,10 @@ def run(chk):
         run_pointer_cache(chk, prog, sname, tag, ptr)
     cursor_restore(chk, prog)
     who_writes_reader_state(chk, prog)
+    escape_rule(chk, prog)
+    chk.floor("K2-escape", 10)
+    fresh_buffer_rule(chk, prog)
+    chk.floor("K9-fresh", 2)
     chk.floor("K9-array", 2)
     chk.floor("K9-ptr", 2)
     chk.floor("K9-out", 2)
